@@ -606,8 +606,48 @@ def r129(ctx, fx):
     ctx.inst(rid, "join_chunks|scan", sample={"replacements_of_line_by_a_part": n_sites})
 
 
+def r1210(ctx, fx):
+    rid = ctx.rule("R12.10", "`mos format` rewrites each file with exactly the formatted text: a file opened for writing through OpenOptions is truncated (`truncate(true)`), "
+                   "created anew or appended to on purpose — opened with `write(true)` alone, a text that is shorter than the old one leaves the old one's tail behind it")
+    n = 0
+    for f in sorted(list(fx.all_fns("mos")) + list(fx.all_fns("mos_core")), key=lambda f: f.path):
+        if f.kind == "closure" or not f.d.get("hir") or "::tests::" in f.path:
+            continue
+        lets = {}
+        for y in lib.hwalk(f.hir["body"]):
+            if y.get("k") == "let" and "init" in y and y["pat"].get("k") == "bind":
+                lets.setdefault(y["pat"]["name"], []).append(y["init"])
+        for x in lib.hwalk(f.hir["body"]):
+            if not (x.get("k") == "mcall" and x.get("name") == "open" and "OpenOptions" in str(x.get("path", ""))):
+                continue
+            chain, todo, seen = [], [x["recv"]], set()
+            while todo and len(chain) < 10:
+                e = todo.pop()
+                chain.append(e)
+                for y in lib.hwalk(e):
+                    nm = lib.hpath(y) if y.get("k") == "path" else None
+                    if nm in lets and nm not in seen:
+                        seen.add(nm)
+                        todo.extend(lets[nm])
+            flags = {}
+            for c in chain:
+                for y in lib.hwalk(c):
+                    if y.get("k") == "mcall" and y.get("name") in ("write", "truncate", "append", "create_new", "create", "read") and y.get("args"):
+                        flags[y["name"]] = lib.hlit(lib.strip(y["args"][0]))
+            n += 1
+            key = "%s|open#%d" % (f.path, n)
+            ctx.inst(rid, key, sample={"fn": f.path, "line": x.get("ln"), "flags": {k: v for k, v in flags.items()}})
+            if flags.get("write") is True and not (flags.get("truncate") is True or flags.get("append") is True or flags.get("create_new") is True):
+                ctx.finding(rid, key, "%s opens a file for writing without truncating it: what is written replaces the beginning of the old content, and when it is "
+                            "shorter the rest of the old content stays — a formatted source followed by the tail of the unformatted one" % f.path.rsplit("::", 1)[-1],
+                            "%s:%s" % (f.file, x.get("ln")))
+    if n < 1:
+        ctx.fail_closed(rid, "no file opened through OpenOptions found (format_command used to)")
+
+
 def run(ctx):
     fx = ctx.facts
+    r1210(ctx, fx)
     r125(ctx, fx)
     r126(ctx, fx)
     r127(ctx, fx)
